@@ -3,6 +3,8 @@
 import json, sys
 pid, wt = sys.argv[1], sys.argv[2]
 n = int(sys.argv[3]) if len(sys.argv) > 3 else 3
+# optional 4th argument: a file with one-line descriptions of changes already tried (a later round must differ)
+tried = open(sys.argv[4]).read().strip() if len(sys.argv) > 4 else ""
 for l in open('/verif/properties.jsonl'):
     p = json.loads(l)
     if p['id'] == pid:
@@ -19,6 +21,7 @@ Here is a semantic property that the code base is supposed to satisfy:
 
 Your task: produce {n} DIFFERENT, realistic code changes (bugs) to the non-test Go source in the worktree, each of which BREAKS this property, while the project still compiles and its existing test suite still passes. They should look like plausible mistakes or refactorings a developer could make (a reordered step, a dropped check, an off-by-one, a wrong variable, a missed error path, a too-eager optimisation), not sabotage that ordinary use would expose at once. Prefer changes that need something specific to manifest: a particular interleaving, a crash or storage/lock fault at a particular point, a multi-step sequence of operations, an unusual input or tree size, or two cooperating sites that each look fine alone. Each change should be small (a few lines), touch only non-test .go files, and the {n} changes should exercise different mechanisms of the property.
 
+{("Changes that were ALREADY tried in an earlier round -- yours must be different in mechanism, site or trigger, not variations of these:" + chr(10) + tried + chr(10)) if tried else ""}
 For EACH change k = 1..{n}:
  1. Start from a clean tree (git -C {wt} checkout -- . && git -C {wt} clean -fdq).
  2. Make the change. Save it as /tmp/{pid.lower()}-out/m<k>/patch.diff (output of `git -C {wt} diff`).
@@ -27,6 +30,7 @@ For EACH change k = 1..{n}:
     (the sandbox has no network; always use exactly those environment variables and the go1.26.8 binary; the first build takes a minute or two). If an existing test fails with your change, pick a different change.
  4. Write a demonstration: a NEW Go test file (e.g. internal/ctlog/zz_demo_test.go, in the package's own test package or internal test package as you need) that FAILS with your change applied and PASSES on the clean tree, showing the property being violated (the specific schedule / fault / sequence / input needed). You may use the helpers that already exist in the package's *_test.go files (look at internal/ctlog/testlog_test.go, ctlog_test.go, export_test.go etc.). Save the demo file as /tmp/{pid.lower()}-out/m<k>/demo_test.go together with a line in notes saying where it must be placed, and confirm both outcomes yourself (fails with the patch, passes without).
  5. Write /tmp/{pid.lower()}-out/m<k>/notes.md: what the change is, why it breaks the property, what exactly is needed for it to manifest, and the exact commands you ran with their results.
+Known quirks of this sandbox: TestSequenceLargeLog (internal/ctlog), TestCCADBRoots (cmd/sunlight, needs network) and TestScripts (cmd/skylight, slow start-up) may fail on the clean tree under load; skip them (e.g. -skip 'TestSequenceLargeLog|TestCCADBRoots|TestScripts') and only run the packages your change affects.
 Finally restore the worktree to a clean state. The machine is slow and shared: avoid running the whole test suite more often than needed, and never run more than one go command at a time.
 
 Report back a short summary: for each change one line with its path, a one-sentence description, and whether you confirmed (a) build ok, (b) existing tests pass, (c) demo fails with patch, (d) demo passes without.""")
